@@ -24,7 +24,11 @@ PROFILE = scenario.profile(maxD=3, extra_budget=(15, 60), cons_x0=("margin",), p
                            noise_modes=("declared", "none", "specified", "auto", "none", "specified"), specified_spellings=("both", "alone"),
                            max_iter_choices=(None,), tol_mesh_choices=(None,), target_kinds=("quad", "l1", "rosen", "maxn"),
                            # documented option that switches on the warning path taken after a failed fit attempt
-                           extra_opts=(("gp_warnings", (True,), 0.25),))
+                           # and the other GP mean functions: their hyperparameter priors differ (negquad leaves some unset),
+                           # and the retry after a failed fit draws new hyperparameters from those priors
+                           extra_opts=(("gp_warnings", (True,), 0.25), ("gp_mean_fun", ("negquad", "zero", "negquad"), 0.3),
+                                       # the alternative retry path: new hyperparameters from a slice sampler instead of the priors
+                                       ("use_slice_sampler", (True,), 0.2)))
 N = {"quick": 32, "thorough": 128}
 
 
